@@ -332,13 +332,17 @@ func (j *Job) start() error {
 		j.log.Info("running")
 		j.status.Set(StatusRunning)
 
+		// The ticker belongs to the assembly that is running now. Its function runs
+		// on the ticker's goroutine: a tick that is under way when the job leaves
+		// Running must not read the field while the next assembly is stored in it.
+		assembly := j.assembly
 		j.checkpointTicker = j.clock.Every(1*time.Minute, func(tc *clocks.EveryContext) {
-			cpID, err := j.snapshotStore.CreateCheckpoint(j.assembly.OperatorIDs(), j.assembly.SourceRunnerIDs())
+			cpID, err := j.snapshotStore.CreateCheckpoint(assembly.OperatorIDs(), assembly.SourceRunnerIDs())
 			if errors.Is(err, snapshots.ErrCheckpointInProgress) {
 				tc.RetryIn(1 * time.Second)
 				return
 			}
-			if err := j.assembly.StartCheckpoint(context.Background(), cpID); err != nil {
+			if err := assembly.StartCheckpoint(context.Background(), cpID); err != nil {
 				j.log.Error("failed to start checkpoint", "err", err)
 			}
 		}, "checkpointing")
